@@ -1830,10 +1830,11 @@ fn generate_literal(
         }
         ir::Constant::IntLiteral(_) => panic!("cannot represent {literal:?}"),
         ir::Constant::Int32(v) if v < 0 => {
+            // The magnitude of the most negative value does not fit in the signed type
             return Ok(ast::Expression::UnaryOperation(
                 ast::UnaryOp::Minus,
                 Box::new(Located::none(ast::Expression::Literal(
-                    ast::Literal::IntUntyped(-v as u64),
+                    ast::Literal::IntUntyped(u64::from(v.unsigned_abs())),
                 ))),
             ));
         }
